@@ -127,9 +127,15 @@ def run_case(ctx, rig, key_words, plans=None, actions=None, fail=None):
 
 @st.composite
 def batch_cases(draw, B):
-    keys = draw(st.lists(episodes.keys(), min_size=B, max_size=B))
+    """Per-element keys and plans.  Large batches (Hypothesis cannot draw hundreds of plans in one example) expand 6
+    drawn prototypes deterministically: element i gets prototype i % 6 with its key and every r shifted by i."""
+    nb = min(B, 6)
+    keys = draw(st.lists(episodes.keys(), min_size=nb, max_size=nb))
     plans = [draw(episodes.plans(max_len=N_STEPS, min_len=N_STEPS,
-                                 styles=("legalish", "chaos", "late_illegal", "legal"))) for _ in range(B)]
+                                 styles=("legalish", "chaos", "late_illegal", "legal"))) for _ in range(nb)]
+    if B > nb:
+        keys = [((keys[i % nb][0] + i) % 2**32, keys[i % nb][1]) for i in range(B)]
+        plans = [dict(plans[i % nb], steps=[(m, r + 7919 * (i // nb)) for m, r in plans[i % nb]["steps"]]) for i in range(B)]
     return {"keys": keys, "plans": plans}
 
 
